@@ -4,6 +4,7 @@ import (
 	"context"
 	"database/sql"
 	"database/sql/driver"
+	"io"
 	"sync"
 
 	sqlite3 "github.com/mattn/go-sqlite3"
@@ -17,6 +18,7 @@ const (
 	SQLCommit   = "commit"
 	SQLRollback = "rollback"
 	SQLPrepare  = "prepare"
+	SQLNext     = "next" // fetching a result row (where SQLite reports BUSY / IOERR of a running statement)
 )
 
 // SQLPlan observes and perturbs the driver operations of one database handle.
@@ -157,8 +159,32 @@ func (c *vconn) QueryContext(ctx context.Context, q string, a []driver.NamedValu
 			r.Close()
 			return nil, e
 		}
+		return &vrows{inner: r, plan: c.plan}, nil
 	}
 	return r, err
+}
+
+// vrows makes every row fetch an operation of its own.
+type vrows struct {
+	inner driver.Rows
+	plan  *SQLPlan
+}
+
+func (r *vrows) Columns() []string { return r.inner.Columns() }
+func (r *vrows) Close() error      { return r.inner.Close() }
+func (r *vrows) Next(dest []driver.Value) error {
+	_, h := r.plan.step(SQLNext)
+	if err := h("before"); err != nil {
+		return err
+	}
+	err := r.inner.Next(dest)
+	if err != nil && err != io.EOF {
+		return err
+	}
+	if e := h("after"); e != nil {
+		return e
+	}
+	return err // nil or io.EOF
 }
 
 type vtx struct {
